@@ -176,6 +176,16 @@ PROPERTIES = {
         ],
         "targets": [{"name": "c15_conv", "src": "c15_convolve.cpp", "mode": "asan", "rapidcheck": True, "flags": ['-DVERIF_TARGET_NAME="c15_conv"'], "subtargets": ["conv", "conv2d", "extend"]}],
     },
+    "C16": {
+        "level": "exploration",
+        "assumptions": [
+            "float32 channels are not a provided configuration of threshold_binary/threshold_truncate (their lambdas do not compile for scoped_channel_value); thresholds are exercised on the 8/16-bit signed and unsigned types",
+            "'symmetric structuring element' = invariant under transposition and point reflection, odd size, centre element set (the library always includes the centre pixel)",
+            "threshold_optimal is only required to be a single-threshold result per channel, not the true Otsu threshold (the statement asks no more)",
+            "source and destination have the same pixel type and dimensions (threshold parameters are typed by the destination channel; mixed signedness would compare converted values)",
+        ],
+        "targets": [{"name": "c16_tmm", "src": "c16_threshold_morph.cpp", "mode": "asan", "rapidcheck": True, "flags": ['-DVERIF_TARGET_NAME="c16_tmm"'], "subtargets": ["thresh", "otsu", "morph", "median"]}],
+    },
     "C13": {
         "level": "exploration",
         "assumptions": [
